@@ -47,51 +47,78 @@ theorem lookup_returns_last_owner {α : Type} (keys : α → List Nat) (objs : L
 theorem index_roundtrip_iff_collision_free {α : Type} (keys : α → List Nat) (objs : List α) :
     RoundTrip keys objs ↔ CollisionFree keys objs := roundTrip_iff_collisionFree keys objs
 
-/-! ## the generated table: every index key leads back to its owner -/
+/-! ## the generated table: every index key leads back to its owner
+
+The kernel evaluates, for every indexed object and every key expression of the builder, the key (with the model's
+`lower`, `cat`, `strNat`) and looks it up in the translator's search-tree certificate (keys evaluated there with
+Python's own string functions): linear·log.  That certifies collision-freeness; round trip through the *modelled*
+index (`buildIndex`, last writer wins) then follows from the general equivalence. -/
 
 def chkElementKeys : Bool :=
-  indexedElements.all fun e => (elementKeys e).all fun k => optElIs (elementIndex.get? k) e
+  indexedElements.all fun e => (elementKeys e).all fun k => optElIs (elementKeyTree.find k) e
 def chkIsotopeKeys : Bool :=
-  indexedIsotopes.all fun i => (isotopeKeys i).all fun k => optIsoIs (isotopeIndex.get? k) i
+  indexedIsotopes.all fun i => (isotopeKeys i).all fun k => optIsoIs (isotopeKeyTree.find k) i
 
 theorem chk_element_keys : chkElementKeys = true := by decide +kernel
 theorem chk_isotope_keys : chkIsotopeKeys = true := by decide +kernel
 
-theorem element_index_roundtrip : RoundTrip elementKeys indexedElements := by
-  intro e he k hk
+/-- no two elements share an index key (lower-case symbol, lower-case name, decimal atomic number) -/
+theorem element_index_collision_free : CollisionFree elementKeys indexedElements := by
+  refine collisionFree_of_oracle elementKeyTree.find fun e he k hk => ?_
   have h := chk_element_keys
   simp only [chkElementKeys, List.all_eq_true] at h
   exact optElIs_iff.mp (h e he k hk)
 
-theorem isotope_index_roundtrip : RoundTrip isotopeKeys indexedIsotopes := by
-  intro i hi k hk
+/-- no two isotopes share an index key (symbol, name, element symbol + A, element name + A; lower case) -/
+theorem isotope_index_collision_free : CollisionFree isotopeKeys indexedIsotopes := by
+  refine collisionFree_of_oracle isotopeKeyTree.find fun i hi k hk => ?_
   have h := chk_isotope_keys
   simp only [chkIsotopeKeys, List.all_eq_true] at h
   exact optIsoIs_iff.mp (h i hi k hk)
 
-/-- no two elements share an index key (lower-case symbol, lower-case name, decimal atomic number) -/
-theorem element_index_collision_free : CollisionFree elementKeys indexedElements :=
-  (roundTrip_iff_collisionFree _ _).mp element_index_roundtrip
+/-- every indexed element is found in `_element_index` under each of its keys -/
+theorem element_index_roundtrip : RoundTrip elementKeys indexedElements :=
+  (roundTrip_iff_collisionFree _ _).mpr element_index_collision_free
 
-/-- no two isotopes share an index key (symbol, name, element symbol + A, element name + A; lower case) -/
-theorem isotope_index_collision_free : CollisionFree isotopeKeys indexedIsotopes :=
-  (roundTrip_iff_collisionFree _ _).mp isotope_index_roundtrip
+/-- every indexed isotope is found in `_isotope_index` under each of its keys -/
+theorem isotope_index_roundtrip : RoundTrip isotopeKeys indexedIsotopes :=
+  (roundTrip_iff_collisionFree _ _).mpr isotope_index_collision_free
+
+/-- every exported object was bound when its index was built (nothing is defined after the `_build_*_index()` call) -/
+def chkIndexed : Bool := subseqB El.beq elements indexedElements && subseqB Iso.beq isotopes indexedIsotopes
+theorem chk_indexed : chkIndexed = true := by decide +kernel
+
+theorem all_exported_indexed :
+    (∀ e ∈ elements, e ∈ indexedElements) ∧ (∀ i ∈ isotopes, i ∈ indexedIsotopes) := by
+  have h := chk_indexed
+  simp only [chkIndexed, Bool.and_eq_true] at h
+  exact ⟨subseqB_sound (fun _ _ => El.beq_iff.mp) h.1, subseqB_sound (fun _ _ => Iso.beq_iff.mp) h.2⟩
 
 /-! ## lookup round trip, every exported object, every identifier, every letter case -/
 
-def elementQueries (e : El) : List Query :=
-  [.str e.sym, .str e.name, .str (strNat e.z), .int e.z, .elem e]
+/-- `str(Z)` and `<symbol><A>` keys: lower-casing commutes with the way the builder assembled them (table check) -/
+def chkKeyForms : Bool :=
+  (elements.all fun e => (lower (strNat e.z)).beq (strNat e.z)) &&
+  (isotopes.all fun i => Nat.ble 1 i.a &&
+    (lower (cat i.parent.sym (strNat i.a))).beq (cat (lower i.parent.sym) (strNat i.a)) &&
+    (lower (cat i.parent.name (strNat i.a))).beq (cat (lower i.parent.name) (strNat i.a)))
+theorem chk_key_forms : chkKeyForms = true := by decide +kernel
 
-def chkElementLookup : Bool :=
-  elements.all fun e => (elementQueries e).all fun q => optElIs (lookupElement elementIndex q) e
+private theorem key_forms :
+    (∀ e ∈ elements, lower (strNat e.z) = strNat e.z) ∧
+    (∀ i ∈ isotopes, 1 ≤ i.a ∧ lower (cat i.parent.sym (strNat i.a)) = cat (lower i.parent.sym) (strNat i.a) ∧
+      lower (cat i.parent.name (strNat i.a)) = cat (lower i.parent.name) (strNat i.a)) := by
+  have h := chk_key_forms
+  simp only [chkKeyForms, Bool.and_eq_true, List.all_eq_true, Nat.ble_eq] at h
+  exact ⟨fun e he => nbeq.mp (h.1 e he), fun i hi => ⟨(h.2 i hi).1.1, nbeq.mp (h.2 i hi).1.2, nbeq.mp (h.2 i hi).2⟩⟩
 
-theorem chk_element_lookup : chkElementLookup = true := by decide +kernel
+private theorem el_key {e : El} (he : e ∈ elements) {k : Nat} (hk : k ∈ elementKeys e) :
+    elementIndex.get? k = some e :=
+  element_index_roundtrip e (all_exported_indexed.1 e he) k hk
 
-private theorem el_q {e : El} (he : e ∈ elements) {q : Query} (hq : q ∈ elementQueries e) :
-    lookupElement elementIndex q = some e := by
-  have h := chk_element_lookup
-  simp only [chkElementLookup, List.all_eq_true] at h
-  exact optElIs_iff.mp (h e he q hq)
+private theorem iso_key {i : Iso} (hi : i ∈ isotopes) {k : Nat} (hk : k ∈ isotopeKeys i) :
+    isotopeIndex.get? k = some i :=
+  isotope_index_roundtrip i (all_exported_indexed.2 i hi) k hk
 
 /-- `lookup_element(s)` returns the element itself for every spelling `s` of its symbol or name in any letter case,
 for its atomic number written as a string or given as an `int`, and for the object itself -/
@@ -101,29 +128,14 @@ theorem lookup_element_roundtrip (e : El) (he : e ∈ elements) :
     lookupElement elementIndex (.str (strNat e.z)) = some e ∧
     lookupElement elementIndex (.int e.z) = some e ∧
     lookupElement elementIndex (.elem e) = some e := by
-  refine ⟨fun s hs => ?_, fun s hs => ?_, ?_, ?_, ?_⟩
-  · rw [lookupElement_case _ hs]; exact el_q he (by simp [elementQueries])
-  · rw [lookupElement_case _ hs]; exact el_q he (by simp [elementQueries])
-  · exact el_q he (by simp [elementQueries])
-  · exact el_q he (by simp [elementQueries])
-  · rfl
-
-def isotopeQueries (i : Iso) : List (Query × Option Int) :=
-  [(.str i.base.sym, none), (.str i.base.name, none),
-   (.str (cat i.parent.sym (strNat i.a)), none), (.str (cat i.parent.name (strNat i.a)), none),
-   (.elem i.parent, some (i.a : Int))]
-
-def chkIsotopeLookup : Bool :=
-  isotopes.all fun i => Nat.ble 1 i.a &&
-    (isotopeQueries i).all fun q => optIsoIs (lookupIsotope elementIndex isotopeIndex q.1 q.2) i
-
-theorem chk_isotope_lookup : chkIsotopeLookup = true := by decide +kernel
-
-private theorem iso_q {i : Iso} (hi : i ∈ isotopes) :
-    1 ≤ i.a ∧ ∀ q ∈ isotopeQueries i, lookupIsotope elementIndex isotopeIndex q.1 q.2 = some i := by
-  have h := chk_isotope_lookup
-  simp only [chkIsotopeLookup, List.all_eq_true, Bool.and_eq_true, Nat.ble_eq] at h
-  exact ⟨(h i hi).1, fun q hq => optIsoIs_iff.mp ((h i hi).2 q hq)⟩
+  have hz := key_forms.1 e he
+  refine ⟨fun s hs => ?_, fun s hs => ?_, ?_, ?_, rfl⟩
+  · rw [lookupElement_str, hs]; exact el_key he (by simp [elementKeys])
+  · rw [lookupElement_str, hs]; exact el_key he (by simp [elementKeys])
+  · rw [lookupElement_str, hz]; exact el_key he (by simp [elementKeys])
+  · rw [lookupElement_int]
+    show elementIndex.get? (lower (strNat e.z)) = some e
+    rw [hz]; exact el_key he (by simp [elementKeys])
 
 /-- `lookup_isotope(s)` returns the isotope itself for every spelling, in any letter case, of its symbol, its name,
 `<element symbol><A>` and `<element name><A>`; and for the object itself -/
@@ -135,50 +147,67 @@ theorem lookup_isotope_roundtrip (i : Iso) (hi : i ∈ isotopes) :
     (∀ s, lower s = lower (cat i.parent.name (strNat i.a)) →
       lookupIsotope elementIndex isotopeIndex (.str s) none = some i) ∧
     (∀ n, lookupIsotope elementIndex isotopeIndex (.isot i) n = some i) := by
-  obtain ⟨_, h⟩ := iso_q hi
+  obtain ⟨_, h1, h2⟩ := key_forms.2 i hi
   refine ⟨fun s hs => ?_, fun s hs => ?_, fun s hs => ?_, fun s hs => ?_, fun n => rfl⟩
-  · rw [lookupIsotope_case _ _ hs]; exact h (_, none) (by simp [isotopeQueries])
-  · rw [lookupIsotope_case _ _ hs]; exact h (_, none) (by simp [isotopeQueries])
-  · rw [lookupIsotope_case _ _ hs]; exact h (_, none) (by simp [isotopeQueries])
-  · rw [lookupIsotope_case _ _ hs]; exact h (_, none) (by simp [isotopeQueries])
+  · rw [lookupIsotope_str, hs]; exact iso_key hi (by simp [isotopeKeys])
+  · rw [lookupIsotope_str, hs]; exact iso_key hi (by simp [isotopeKeys])
+  · rw [lookupIsotope_str, hs, h1]; exact iso_key hi (by simp [isotopeKeys])
+  · rw [lookupIsotope_str, hs, h2]; exact iso_key hi (by simp [isotopeKeys])
 
 /-- `lookup_isotope(v, number=A)` returns the isotope for **every** `v` that `lookup_element` resolves to the
 isotope's element (symbol / name in any case, atomic number as `str` or `int`, the `Element` object) -/
 theorem lookup_isotope_by_element_and_number (i : Iso) (hi : i ∈ isotopes) (q : Query) (hq : ∀ j, q ≠ .isot j)
     (hel : lookupElement elementIndex q = some i.parent) :
     lookupIsotope elementIndex isotopeIndex q (some (i.a : Int)) = some i := by
-  obtain ⟨ha, h⟩ := iso_q hi
+  obtain ⟨ha, h1, _⟩ := key_forms.2 i hi
   have hn : (i.a : Int) ≠ 0 := by omega
-  have h0 := h (.elem i.parent, some (i.a : Int)) (by simp [isotopeQueries])
-  rw [lookupIsotope_number _ _ _ (by intro j; simp) _ hn] at h0
   rw [lookupIsotope_number _ _ _ hq _ hn, hel]
-  simpa [lookupElement] using h0
+  show isotopeIndex.get? (lower (cat i.parent.sym (strNat i.a))) = some i
+  rw [h1]; exact iso_key hi (by simp [isotopeKeys])
 
 /-! ## uniqueness of names and symbols (compared case-insensitively, which is the stronger statement) -/
 
-def chkNames : Bool := nodupB (allSpecies.map fun s => lower s.base.name)
-def chkElementSymbols : Bool := nodupB (elements.map fun e => lower e.sym)
-def chkIsotopeSymbols : Bool := nodupB (isotopes.map fun i => lower i.base.sym)
-def chkAtomicNumbers : Bool := nodupB (elements.map fun e => e.z)
-
+def chkNames : Bool := idxOk nameTree.find 0 (allSpecies.map fun s => lower s.base.name)
 theorem chk_names : chkNames = true := by decide +kernel
-theorem chk_element_symbols : chkElementSymbols = true := by decide +kernel
-theorem chk_isotope_symbols : chkIsotopeSymbols = true := by decide +kernel
-theorem chk_atomic_numbers : chkAtomicNumbers = true := by decide +kernel
 
 /-- no two species (elements and isotopes together) share a name, even up to letter case -/
-theorem names_unique : (allSpecies.map fun s => lower s.base.name).Nodup := nodupB_sound chk_names
-/-- … hence no two share a name exactly -/
+theorem names_unique : (allSpecies.map fun s => lower s.base.name).Nodup := nodup_of_idxOk chk_names
+
+/-- … hence no two share a name exactly, and the exported objects are pairwise different -/
 theorem names_unique_exact : (allSpecies.map fun s => s.base.name).Nodup := by
   have h := names_unique
   rw [show (fun s : Sp => lower s.base.name) = lower ∘ (fun s : Sp => s.base.name) from rfl, ← List.map_map] at h
   exact List.Nodup.of_map _ h
-/-- no two elements share a symbol -/
-theorem element_symbols_unique : (elements.map fun e => lower e.sym).Nodup := nodupB_sound chk_element_symbols
-/-- no two isotopes share a symbol -/
-theorem isotope_symbols_unique : (isotopes.map fun i => lower i.base.sym).Nodup := nodupB_sound chk_isotope_symbols
+
+theorem species_nodup : allSpecies.Nodup := List.Nodup.of_map _ names_unique_exact
+
+theorem elements_nodup : elements.Nodup := by
+  have h := species_nodup
+  unfold allSpecies at h
+  exact List.Nodup.of_map _ (List.Nodup.of_append_left h)
+
+theorem isotopes_nodup : isotopes.Nodup := by
+  have h := species_nodup
+  unfold allSpecies at h
+  exact List.Nodup.of_map _ (List.Nodup.of_append_right h)
+
+/-- no two elements share a symbol (even up to letter case) -/
+theorem element_symbols_unique : (elements.map fun e => lower e.sym).Nodup := by
+  refine List.Nodup.map_on (fun a ha b hb hab => ?_) elements_nodup
+  exact element_index_collision_free a (all_exported_indexed.1 a ha) b (all_exported_indexed.1 b hb) (lower a.sym)
+    (by simp [elementKeys]) (by rw [hab]; simp [elementKeys])
+
+/-- no two isotopes share a symbol (even up to letter case) -/
+theorem isotope_symbols_unique : (isotopes.map fun i => lower i.base.sym).Nodup := by
+  refine List.Nodup.map_on (fun a ha b hb hab => ?_) isotopes_nodup
+  exact isotope_index_collision_free a (all_exported_indexed.2 a ha) b (all_exported_indexed.2 b hb) (lower a.base.sym)
+    (by simp [isotopeKeys]) (by rw [hab]; simp [isotopeKeys])
+
 /-- no two elements share an atomic number -/
-theorem atomic_numbers_unique : (elements.map fun e => e.z).Nodup := nodupB_sound chk_atomic_numbers
+theorem atomic_numbers_unique : (elements.map fun e => strNat e.z).Nodup := by
+  refine List.Nodup.map_on (fun a ha b hb hab => ?_) elements_nodup
+  exact element_index_collision_free a (all_exported_indexed.1 a ha) b (all_exported_indexed.1 b hb) (strNat a.z)
+    (by simp [elementKeys]) (by rw [hab]; simp [elementKeys])
 
 /-! ## periodic table -/
 
@@ -256,29 +285,29 @@ theorem species_ne_is_not_eq (a b : Sp) : pyNe cfg a b = !pyEq cfg a b :=
   pyNe_eq_not ne_fields_same.1 ne_fields_same.2.1 a b
 theorem species_eq_refl (a : Sp) : pyEq cfg a a = true := pyEq_refl cfg a
 
-def chkDistinct : Bool := pairwiseB (fun a b => !pyEq cfg a b && pyNe cfg a b) allSpecies
-
-theorem chk_distinct : chkDistinct = true := by decide +kernel
+theorem name_is_compared : EField.name ∈ cfg.elEq ∧ IField.inh .name ∈ cfg.isoEq := by decide
 
 /-- distinct exported species (elements and isotopes, mixed pairs included, both argument orders) compare unequal -/
 theorem distinct_species_unequal :
     allSpecies.Pairwise fun a b => (pyEq cfg a b = false ∧ pyNe cfg a b = true) ∧
       (pyEq cfg b a = false ∧ pyNe cfg b a = true) := by
-  have h := pairwiseB_sound chk_distinct
+  have h : allSpecies.Pairwise fun a b => a.base.name ≠ b.base.name := by
+    have := names_unique_exact
+    rwa [List.Nodup, List.pairwise_map] at this
   refine h.imp ?_
   intro a b hab
-  simpa [Bool.and_eq_true] using hab
+  have h1 := pyEq_false_of_name_ne name_is_compared.1 name_is_compared.2 hab
+  have h2 := pyEq_false_of_name_ne name_is_compared.1 name_is_compared.2 (a := b) (b := a) (fun e => hab e.symm)
+  simp [species_ne_is_not_eq, h1, h2]
 
 /-- on the registry `==` is identity -/
 theorem species_eq_iff (a b : Sp) (ha : a ∈ allSpecies) (hb : b ∈ allSpecies) : pyEq cfg a b = true ↔ a = b := by
   constructor
   · intro h
     by_contra hne
-    have hp := distinct_species_unequal
-    have hsym : Symmetric fun a b : Sp => (pyEq cfg a b = false ∧ pyNe cfg a b = true) ∧
-        (pyEq cfg b a = false ∧ pyNe cfg b a = true) := fun x y hxy => ⟨hxy.2, hxy.1⟩
-    have := (hp.forall hsym) ha hb hne
-    rw [this.1.1] at h
+    have hnm : a.base.name ≠ b.base.name := fun e =>
+      hne (List.inj_on_of_nodup_map names_unique_exact ha hb e)
+    rw [pyEq_false_of_name_ne name_is_compared.1 name_is_compared.2 hnm] at h
     exact Bool.noConfusion h
   · rintro rfl
     exact pyEq_refl cfg a
